@@ -140,11 +140,12 @@ def main():
         # panic at EVERY phase point:
         panic_cfgs = dedup(
             cfgs(["exe"], [True], [4], W3, P4) +                           # full prior x mode
-            cfgs(["so"], [True], [4], ["default", "inplace"], P4) +
+            cfgs(["so"], [True], [4], ["default"], P4) +
+            cfgs(["so"], [True], [4], ["inplace"], ["absent", "older"]) +
             cfgs(["exe"], [False], [4], W3, ["older"]) +
             cfgs(["exe"], [False], [4], ["default"], ["absent"]) +
             cfgs(["so"], [False], [4], ["default"], ["absent", "older"]) +
-            cfgs(["exe"], [True], [1], ["default"], P4) +
+            cfgs(["exe"], [True], [1], ["default"], ["absent", "older", "readonly"]) +
             cfgs(["exe"], [True], [1], ["inplace", "noinplace"], ["older"]) +
             cfgs(["so"], [True], [1], ["default"], ["absent", "older"]) +
             cfgs(["exe"], [False], [1], ["default"], ["older"]))
@@ -154,11 +155,13 @@ def main():
         unc_faults, unc_all_points = UNCATCHABLE, True
         strace_cfgs = cfgs(["exe", "so"], [False], [4], W3, ["absent", "older"]) + \
             cfgs(["exe"], [True], [4], ["default"], ["older"])
-        thinned = ("panic at every phase point in 35 of the 96 configurations: threads 4: "
-                   "exe/fork x 4 priors x 3 modes; so/fork x 4 priors x {default, inplace} "
-                   "(--no-update-in-place is the default mode of shared objects); exe/no-fork x "
+        thinned = ("panic at every phase point in 32 of the 96 configurations: threads 4: "
+                   "exe/fork x 4 priors x 3 modes; so/fork x default x 4 priors + inplace x "
+                   "{absent, older} (--no-update-in-place is the default mode of shared "
+                   "objects); exe/no-fork x "
                    "older x 3 modes + absent/default; so/no-fork x default x {absent, older}. "
-                   "threads 1: exe/fork x default x 4 priors + older x {inplace, noinplace}; "
+                   "threads 1: exe/fork x default x {absent, older, readonly} + older x "
+                   "{inplace, noinplace}; "
                    "so/fork x default x {absent, older}; exe/no-fork/default/older. Natural "
                    "errors: full product (96 configurations). Uncatchable faults: exe, threads "
                    "4, default mode, prior 'older': no-fork = kill9 at every point + the other 4 "
